@@ -478,14 +478,16 @@ func init() {
 	register(&Property{
 		ID: "C13",
 		Explanation: "Decides one structural necessary condition of 'desugaring preserves the language': DTX(expr-equal): Expand reuses an already extracted nonterminal for a sub-expression (lists, optionals, nested choices) when names match and (*Expr).Equal says the expressions are the same; the check evaluates Equal abstractly for every expression kind and requires that a difference in any component of the kind (symbol, arguments, every sub-expression including a list's separator, list flags, names, arrow flags, predicate, set index) makes it false and identical components make it true. " +
-			"LOOPSHAPE(marker-transparent): markers never hide symbols of a rule. Not decided: the expansion rules themselves (which productions a list/optional/choice turns into) — language equivalence of those is algorithmic and out of reach for this technique; two of the four independently seeded C13/C14 regressions are of that kind and are not detected (recorded in DESIGN.md). SIBLING(list-recursion): every rule Expand builds for a list places the recursive reference (and the separator) on the side the RightRecursive flag asks for; a placement that does not consult the flag is a violation. GUARD(drop-empty): where a Sub list is rebuilt, a child that became Empty is left out only under parent.Kind == Sequence (dropped from a Choice, an explicit %empty alternative disappears from the language).",
-		Rules: []string{"DTX(expr-equal)", "SIBLING(list-recursion)", "LOOPSHAPE(marker-transparent)", "BOUNDARY(terminals)", "GUARD(drop-empty)"},
+			"LOOPSHAPE(marker-transparent): markers never hide symbols of a rule. Not decided: the expansion rules themselves (which productions a list/optional/choice turns into) — language equivalence of those is algorithmic and out of reach for this technique; two of the four independently seeded C13/C14 regressions are of that kind and are not detected (recorded in DESIGN.md). SIBLING(list-recursion): every rule Expand builds for a list places the recursive reference (and the separator) on the side the RightRecursive flag asks for; a placement that does not consult the flag is a violation. GUARD(drop-empty): where a Sub list is rebuilt, a child that became Empty is left out only under parent.Kind == Sequence (dropped from a Choice, an explicit %empty alternative disappears from the language). COPY(struct-slices): a value copy of an expression node (report.apply copies the arrow template) gets its own Sub list before it becomes reachable by or(), which appends to Sub in place. LOSTWRITE(range-copy): stores into fields of range copies of struct elements in syntax/ and compiler/ are observable.",
+		Rules: []string{"DTX(expr-equal)", "SIBLING(list-recursion)", "LOOPSHAPE(marker-transparent)", "BOUNDARY(terminals)", "GUARD(drop-empty)", "COPY(struct-slices)", "LOSTWRITE(range-copy)"},
 		Run: func(c *Ctx) {
 			ruleEXPREQUAL(c)
 			ruleLISTRECURSION(c)
 			ruleMARKERLOOPS(c)
 			ruleMARKERLOOPSAST(c)
 			ruleDROPEMPTY(c)
+			ruleSTRUCTCOPY(c, "compiler", "syntax")
+			ruleLOSTWRITE(c, "syntax", "compiler")
 		},
 	})
 	register(&Property{
